@@ -70,6 +70,7 @@ public:
     long nOps = 0;
     int maxDim = 12;
     bool allowNullOffsetViews = false;
+    bool allowReshape1d = false;     // input class 'Matrix_ handle on 1-d storage reshaped to a non 1-d size' (finding; can crash)
 
     Engine(vh::Ctx& c_, vh::Rng& r_) : c(c_), r(r_) {}
     ~Engine() { destroyAll(); }
@@ -305,7 +306,7 @@ public:
         for (int e = 0; e < o.nr * o.nc; ++e) for (int k = 0; k < K; ++k) lset(o, e, k, got[(size_t)e * K + k]);
     }
     LD eps() const { return (LD)std::numeric_limits<P>::epsilon(); }
-    LD tolOf(LD mag, int nTerms) const { return 32 * (nTerms + 2) * eps() * mag + std::numeric_limits<P>::min() * 64; }
+    LD tolOf(LD mag, int nTerms) const { return 64 * (nTerms + 2) * eps() * mag + std::numeric_limits<P>::min() * 64; }
 
     std::string covKey(const std::string& op, Obj& o) {
         bool contig = false;
